@@ -376,8 +376,52 @@ def long_names(_):
   return n, bad[:3]
 
 
+HISTORY_TEXTS = ['dc="eu"', 'host="a",dc="eu"', 'k=v', 'b=c;a=d', 'k="v";j="w"', '~=}"', 'a="1"', 'k=v,j=w', 'b=c', '']
+
+
+def history_pool():
+  # the same raw tag text in both syntaxes (it means different tags in each), and the bare name
+  pool = ['x']
+  for t in HISTORY_TEXTS:
+    pool += ['x;' + t, 'x{' + t + '}', 'y;' + t, 'y{' + t + '}']
+  return pool
+
+
+def history_order(order):
+  """One process, the pool parsed in the given order: (string, accepted, normal form) for each.  Run once per order in a
+  process of its own; a name's normal form must not depend on what the daemon has seen before."""
+  env.boot()
+  N = Norm()
+  pool = history_pool()
+  if order == 'reverse':
+    pool = pool[::-1]
+  elif order == 'om-first':
+    pool = [x for x in pool if '{' in x] + [x for x in pool if '{' not in x]
+  out = []
+  for x in pool + pool:       # twice: the second pass is served by whatever the first pass left behind
+    acc, nx, dis = N.norm(x)
+    out.append((x, bool(acc), nx, dis or ''))
+  return out
+
+
 def run(ctx):
   env.boot()
+  orders = ['forward', 'reverse', 'om-first']
+  hres = core.pmap(history_order, orders, fresh=True)
+  seen = {}
+  for order, rows in zip(orders, hres):
+    for x, acc, nx, dis in rows:
+      if dis:
+        ctx.violation('entry-points-disagree', 'for %r (pool parsed in %s order): %s' % (x, order, dis), {'string': x})
+        break
+      first = seen.setdefault(x, (order, acc, nx))
+      if first[1:] != (acc, nx):
+        ctx.violation('history-dependent', 'the name %r is %s as %r when the pool %r is parsed in %s order, and %s as %r in %s order: '
+                      'what a name is stored under depends on what the daemon has seen before' % (
+                        x, 'accepted' if first[1] else 'rejected/kept', first[2], HISTORY_TEXTS, first[0],
+                        'accepted' if acc else 'rejected/kept', nx, order), {'history': order, 'string': x})
+        break
+  ctx.add(history_orders=len(orders), history_pool=len(history_pool()))
   ln, lbad = core.pmap(long_names, [0])[0]
   for key, what, rep in lbad:
     ctx.violation(key, what, rep)
@@ -428,6 +472,18 @@ def run(ctx):
 def replay(path):
   body = json.load(open(path))
   rep = body['replay']
+  if 'history' in rep:
+    env.boot()
+    rows = {}
+    for order in ('forward', 'reverse', 'om-first'):
+      for x, acc, nx, dis in core.pmap(history_order, [order], fresh=True)[0]:
+        if x == rep['string']:
+          rows.setdefault(order, (acc, nx))
+    for order, (acc, nx) in rows.items():
+      print('%-9s order: %r accepted=%s stored as %r' % (order, rep['string'], acc, nx))
+    same = len(set(rows.values())) == 1
+    print('oracle:', 'holds' if same else 'the normal form depends on the history')
+    return 0 if same else 1
   N = Norm()
   bad = 0
   for k in ('string', 'other'):
